@@ -411,6 +411,23 @@ pub fn spaces(tier: Tier) -> Vec<Space<'static>> {
             judge_text(format!("{{\"{}\":[\"{}\"]}}", body, body).as_bytes(), acc);
         }));
     }
+    // proper prefixes of encodings whose entry length field has its top bit set: the 48 shortest and the
+    // 48 longest prefixes (the ones in between differ from these only in how much of the payload is there)
+    sp.push(Space::new("prefixes of encodings with a payload of more than 2^27 bytes (48 shortest, 48 longest)", crate::checks::scale::N_HUGE + 1, |i, acc| {
+        let bytes = if i < crate::checks::scale::N_HUGE { crate::checks::scale::huge_doc(i).bytes } else { refmodel::layout::enc(&RVal::Str("z".repeat(1 << 27))) };
+        let n = bytes.len();
+        for p in (0..48).chain(n - 48..n) {
+            acc.eval();
+            acc.nontrivial += 1;
+            for (name, r) in [("parse_jsonb", guard(|| jsonb::parse_jsonb(&bytes[..p]).is_ok())), ("from_slice", guard(|| jsonb::from_slice(&bytes[..p]).is_ok()))] {
+                match r {
+                    Ok(false) => acc.outcome("err"),
+                    Ok(true) => acc.vio(&format!("{}:accepts-proper-prefix-of-valid-encoding", name), || json!({"doc": i, "encoding_length": n, "prefix_length": p, "first_bytes": hex(&bytes[..p.min(24)])})),
+                    Err(pn) => acc.vio(&format!("{}:{}", name, panic_class(&pn)), || json!({"doc": i, "encoding_length": n, "prefix_length": p})),
+                }
+            }
+        }
+    }));
     sp.push(Space::new("giant-counts-isolated", 1, move |_, acc| {
         let mut cases = vec![];
         for h in [0x9FFF_FFFFu32, 0x5FFF_FFFF, 0x8100_0000, 0x4100_0000, 0x80FF_FFFF, 0x40FF_FFFF, 0x9000_0000, 0x5000_0000] {
